@@ -22,7 +22,9 @@ T(i, dt) == FMul(FInt(i - 1), dt)
 Rel == FStr("1e-12")
 
 SigCheck ==
-  LET cum == IF R.variant \in {"vals", "cumsq"} THEN CumSq(R.a) ELSE IF R.variant = "arias" THEN CumArias(R.a, R.dt) ELSE CumCav(R.a, R.dt)
+  LET cum == IF R.variant \in {"vals", "cumsq"} THEN CumSq(R.a) ELSE IF R.variant = "arias" THEN CumArias(R.a, R.dt)
+             ELSE IF R.variant = "signed" THEN FCumSum(R.a)      \* a user-supplied measure that is NOT monotone (running sum of the samples)
+             ELSE CumCav(R.a, R.dt)
       S == InsideSet(cum, R.lo, R.hi, Rel)  Mb == MaybeSet(cum, R.lo, R.hi, Rel)
       n == Len(R.a)
       okIdx == IF R.raised THEN S = {}
